@@ -129,10 +129,46 @@ def mutparam_function(rng, name):
     return "def %s(p) {\n  var old = p\n  %s\n  [old, p]\n}\n" % (name, mut)
 
 
+def reentrant_function(rng, name):
+    """the same tree is evaluated again while an evaluation of it is still in progress (recursion out of a loop body): what the outer
+    evaluation holds (loop counter, locals, containers built from literals) must not be touched by the inner one. Results are known in
+    closed form. -> (source, call expression, expected rendering)"""
+    k = rng.randrange(2, 5)
+    d = rng.randrange(1, 3)
+    tri = k * (k + 1) // 2
+    w = tri
+    for _ in range(d):
+        w = tri + k * w
+    form = rng.randrange(5)
+    if form == 0:      # the canonical counted loop (compiled by the optimizer)
+        src = "def %s(d) {\n  var s = 0\n  for (var i = 0; i < %d; ++i) {\n    s += i + 1\n    if (d > 0) { s += %s(d - 1) }\n  }\n  s\n}\n" % (name, k, name)
+        return src, "%s(%d)" % (name, d), "int:%d" % w
+    if form == 1:      # while loop
+        src = "def %s(d) {\n  var s = 0\n  var i = 0\n  while (i < %d) {\n    ++i\n    s += i\n    if (d > 0) { s += %s(d - 1) }\n  }\n  s\n}\n" % (name, k, name)
+        return src, "%s(%d)" % (name, d), "int:%d" % w
+    if form == 2:      # ranged for over a literal
+        lit = "[" + ", ".join(str(i + 1) for i in range(k)) + "]"
+        src = "def %s(d) {\n  var s = 0\n  for (x : %s) {\n    s += x\n    if (d > 0) { s += %s(d - 1) }\n  }\n  s\n}\n" % (name, lit, name)
+        return src, "%s(%d)" % (name, d), "int:%d" % w
+    if form == 3:      # counted loop whose closures are called after the inner evaluation ran the same loop
+        src = ("def %s(d) {\n  var fs = []\n  for (var i = 0; i < %d; ++i) {\n    fs.push_back(fun[i]() { i })\n    if (d > 0 && i == 0) { %s(d - 1) }\n  }\n"
+               "  var r = []\n  for (f : fs) { r.push_back(f()) }\n  r\n}\n" % (name, k, name))
+        # a capture shares the variable: after the loop every closure sees the counter's final value - of *its own* evaluation's counter
+        return src, "%s(%d)" % (name, d), "[" + ", ".join("int:%d" % k for i in range(k)) + "]"
+    # locals and literal-built containers across an inner evaluation
+    src = "def %s(d) {\n  var a = [d, 10]\n  var t = \"v\"\n  if (d > 0) { %s(d - 1) }\n  a[0] += 1\n  t += \"w\"\n  [a[0], a[1], t]\n}\n" % (name, name)
+    return src, "%s(%d)" % (name, d), "[int:%d, int:10, string:vw]" % (d + 1)
+
+
 def gen_case(rng, idx):
     nf = rng.randrange(2, 5)
     defs = ""
     names = []
+    if rng.random() < 0.3:
+        rname = "re%d" % (idx % 1000)
+        src, call, want = reentrant_function(rng, rname)
+        defs += src
+        names.append((rname, "reentrant", (call, want)))
     if rng.random() < 0.4:
         mname = "mp%d" % (idx % 1000)
         defs += mutparam_function(rng, mname)
@@ -158,9 +194,13 @@ def gen_case(rng, idx):
             continue
         names.append((name, None, None))
     calls = []
+    expected = {}
     for name, ptypes, g in names:
         for _ in range(rng.randrange(1, 3)):
-            if ptypes == "mut":
+            if ptypes == "reentrant":
+                expected[len(calls)] = g[1]
+                calls.append(g[0])
+            elif ptypes == "mut":
                 calls.append("%s(%s)" % (name, rng.choice(FOLDABLE_ARGS)))
             elif ptypes is None:
                 arg = lit_int(rng)
@@ -182,7 +222,7 @@ def gen_case(rng, idx):
         idxs = list(range(len(calls)))
         rng.shuffle(idxs)
         order += idxs
-    return defs, order, calls
+    return defs, order, calls, expected
 
 
 def run(ctx, tier, seed, scale=1.0):
@@ -191,11 +231,11 @@ def run(ctx, tier, seed, scale=1.0):
     exe = vlib.build("asan", ["c08_reeval"])["c08_reeval"]
     n = int((2500 if quick else 200000) * scale)
     plans = [gen_case(rng, i) for i in range(n)]
-    cases = [["R", d, ",".join(map(str, o))] + c for d, o, c in plans]
+    cases = [["R", d, ",".join(map(str, o))] + c for d, o, c, _ in plans]
     res, hf = vlib.run_cases(exe, cases, "c08", timeout_s=120, batch=16)
     ctx.harness_failures += hf
     vlib.judge_crashes(ctx, exe, cases, res, "c08", timeout_s=120, describe=lambda k: {"defs": plans[k][0], "calls": plans[k][2]})
-    for (defs, order, calls), r in zip(plans, res):
+    for (defs, order, calls, expected), r in zip(plans, res):
         ctx.evaluations += 1
         if r.status != "ok":
             continue
@@ -216,6 +256,12 @@ def run(ctx, tier, seed, scale=1.0):
             ctx.count("executions")
             if p[1] == "ok":
                 ok_calls += 1
+            if j in expected:
+                ctx.count("reentrant-evaluations")
+                if obs[0] != "ok" or obs[1] != expected[j]:
+                    ctx.violation("nested-evaluation-disturbs-outer:%s" % ("result" if obs[0] == "ok" else "class"),
+                                  {"defs": defs, "call": calls[j], "expected": expected[j], "got": list(obs)})
+                    break
             if j not in first:
                 first[j] = (obs, p[4] if len(p) > 4 else "")
             elif first[j][0] != obs:
@@ -232,7 +278,7 @@ def run(ctx, tier, seed, scale=1.0):
         ctx.sample({"defs": plans[0][0][:1200], "calls": plans[0][2], "order": plans[0][1]})
     ctx.rule = ("one case = 2-4 generated functions (70% literal-building templates: ints, strings, interpolated strings, inline vectors/maps/ranges, "
                 "booleans incl. foldable ones, mutated by +=, ++, push_back, []=, insert_at, erase_at, clear and returned by value / last expression / "
-                "through a lambda / inside a container; 30% chailang functions) and 1-2 call expressions each (also mutating the returned value), every "
+                "through a lambda / inside a container; 30% chailang functions; in 30% of the cases a function that re-enters itself out of a loop body, with its result known in closed form) and 1-2 call expressions each (also mutating the returned value), every "
                 "call executed 3-6 times in a seeded interleaving, alternately from text and from its stored parse tree; non-trivial iff >= 3 executions "
                 "completed normally; distinct by source")
     ctx.assumptions += ["functions do not touch globals, so equal arguments imply an equal environment",
